@@ -361,6 +361,31 @@ def native_checks():
                 continue
             if got != exp:
                 fail("applicability-cid", "CID row 'D,%s,..' under format %s: accepted=%s, documented=%s" % (name, fmt, got, exp), text=text)
+    # setting one property leaves every other property at its value
+    for fmt in ("delimited", "fixed", "excel", "ods"):
+        for name in sorted(DOCUMENTED[fmt]):
+            if name in ("format",) or name not in SAMPLE_VALUE:
+                continue
+            n += 1
+            before = data.DataFormat(fmt)
+            after = data.DataFormat(fmt)
+            try:
+                after.set_property(name, SAMPLE_VALUE[name])
+            except errors.InterfaceError:
+                continue
+            changed = [other for other in sorted(DOCUMENTED[fmt]) if other != name and other != "format" and hasattr(before, other) and
+                       str(getattr(before, other)) != str(getattr(after, other))]
+            if changed:
+                fail("property-independence", "under %s, setting %r = %r also changed %r" % (fmt, name, SAMPLE_VALUE[name], changed), name=name, fmt=fmt)
+    for fmt in ("excel", "ods"):
+        for first, second in ((("header", "1"), ("sheet", "3")), (("sheet", "3"), ("header", "1")), (("header", "0"), ("sheet", "2"))):
+            n += 1
+            df = data.DataFormat(fmt)
+            df.set_property(*first)
+            df.set_property(*second)
+            want = dict([first, second])
+            if str(df.header) != want["header"] or str(df.sheet) != want["sheet"]:
+                fail("property-independence", "under %s, %s then %s gives header %r sheet %r" % (fmt, first, second, df.header, df.sheet), fmt=fmt)
     # numeric properties: a value is a number exactly if int() says so (nothing is cut off, nothing guessed)
     num_texts = ["0", "1", " 2 ", "+1", "007", "1.5", "2x", "1 000", "1e3", "0x10", "2nd", "x", "-1", "-0", "\uff11", "1_0", "1,5", "2.", ".5",
                  "\t3\n", "3 4", "--1", "1-", "one"]
